@@ -13,7 +13,9 @@ Reading guide
 * `trigF06c/t/x/p`, `trigIdef_bin`  decidable trigger predicates of the known findings / of the
                implementation-defined region (more than 28 decimal digits)
 -/
-import EPV.Lemmas.ArithOps
+import EPV.Lemmas.ArithFloat
+import EPV.Lemmas.ArithCtx
+import EPV.Lemmas.ArithV10
 namespace EPV.C06
 open EPV.Arith EPV.FOArith
 
@@ -291,5 +293,119 @@ example : trigF06c_bin .add (.flt (.fin (5/2))) (.flt (.fin (3/4))) = false ∧
     (opAdd ieee (.flt (.fin (5/2))) (.flt (.fin (3/4)))).map absNum =
       specBin ieee .add (.float (.fin (5/2))) (.float (.fin (3/4))) := by
   refine ⟨by decide +kernel, by decide +kernel⟩
+
+/-! ## Phase 2: mixed operands, xs:float dispatch, the decimal context, XPath 1.0 -/
+
+/-- PARTIAL (F06t, F06x): operands of mixed classes whose promoted type is xs:double (an xs:double with an
+xs:integer, xs:decimal, xs:float or xs:double): every operator returns what F&O specifies for the promoted
+operands — integer→double and decimal→double conversions are the `R`-rounded values, then the IEEE/F&O
+dispatch.  `Faithful R`: rounding keeps the sign, never yields NaN and never rounds a non-zero integer to 0;
+`intsFinite`: no integer operand overflows binary64 (Python raises there). -/
+theorem mixed_double_ops_eq_spec (R : Rounding) (hF : Faithful R) (v : Ver) (op : BinOp) (a b : Num)
+    (h : isDbl a = true ∨ isDbl b = true) (hi : intsFinite R a b) (hwa : numWf a) (hwb : numWf b)
+    (hk : trigF06t R v op a b = false) (hx : trigF06x R v op a b = false) :
+    (modelBin R v op a b).map absNum = specBin R op (absNum a) (absNum b) :=
+  double_ops_eq_spec R hF v op a b h hi hwa hwb hk hx
+
+/-- the hypotheses are satisfiable on a mixed pair: 7 (xs:integer) mod 2.5e0 = 2.0e0 -/
+example : isDbl (.dbl (.fin (5/2))) = true ∧ trigF06t ieee .v20 .mod (.int 7) (.dbl (.fin (5/2))) = false ∧
+    (modelBin ieee .v20 .mod (.int 7) (.dbl (.fin (5/2)))).map absNum = .ok (.double (.fin 2)) := by
+  refine ⟨rfl, by decide +kernel, by decide +kernel⟩
+
+/-- PARTIAL (F06t; the precision itself is finding F06c): operands whose promoted type is xs:float
+(xs:float with xs:float / xs:integer / xs:decimal): every operator is the F&O operator computed with the
+rounding `implR R` (binary64 rounding followed by the `Float` clamp) where F&O rounds to binary32 —
+promotion, special values, signs of zero, error codes and the xs:float result class are as specified.
+`hm`: the exact remainder is not below the flush threshold 1e-37 (else `Float` flushes it to zero). -/
+theorem float_ops_eq_spec_up_to_rounding (R : Rounding) (hF : Faithful R) (v : Ver) (hv : v ≠ .v10) (op : BinOp)
+    (a b : Num) (h : floatTyped a b = true) (hi : intsFinite R a b) (hs : intsStable R a b)
+    (ha : numStable a) (hb : numStable b)
+    (hm : op = .mod → stable (fmod (asF R a) (asF R b)))
+    (hk : trigF06t R v op a b = false) :
+    (modelBin R v op a b).map absNum = specBin (implR R) op (absNum a) (absNum b) :=
+  float_ops_eq_spec R hF v hv op a b h hi hs ha hb hm hk
+
+/-- unary minus/plus, abs, floor, ceiling, round, round-half-to-even on xs:float: the F&O function computed
+with `implR R`; the result is an xs:float -/
+theorem float_unops_eq_spec_up_to_rounding (R : Rounding) (v : Ver) (op : UnOp) (d : Dbl) (hs : stable d)
+    (hv : ∀ p, op = .round p → (v = .v30 ∨ v = .v31 ∨ p = 0))
+    (hk : trigF06p op (.flt d) = false) :
+    absNum (modelUn R v op (.flt d)) = specUn (implR R) op (.float d) :=
+  float_unops_eq_spec R v op d hs hv hk
+
+/-- the decimal context of the implementation (`ctx28`: coefficient digits, ROUND_HALF_EVEN) is `round28`
+of the exact value — 28 significant digits, ties to even — for every coefficient and scale -/
+theorem decimal_context_eq_round28 (n : Int) (s : Nat) :
+    decVal (ctx28 n s).1 (ctx28 n s).2 = round28 (decVal n s) :=
+  ctx28_eq_round28 n s
+
+/-- decimal division is the exact quotient rounded to 28 significant digits, ties to even -/
+theorem div_dec_eq_spec (a : Int) (sa : Nat) (b : Int) (sb : Nat) (hb : b ≠ 0) :
+    decVal (decDiv a sa b sb).1 (decDiv a sa b sb).2 = round28 (decVal a sa / decVal b sb) :=
+  decDiv_eq_round28 a sa b sb hb
+
+/-- `+ - * div` on xs:integer / xs:decimal operands, ALL operands, no digit bound (XPath 2.0+): the exact
+F&O result with the decimal context applied to an xs:decimal result (integer results exact, unbounded),
+FOAR0001 for a zero divisor -/
+theorem exact_ops_eq_spec_ctx (R : Rounding) (v : Ver) (hv : v ≠ .v10) (a b : Num) (x : Int) (sx : Nat) (y : Int)
+    (sy : Nat) (ha : asDec a = some (x, sx)) (hb : asDec b = some (y, sy)) :
+    (opAdd R a b).map absNum = (specBin R .add (absNum a) (absNum b)).map ctxDec ∧
+    (opSub R a b).map absNum = (specBin R .sub (absNum a) (absNum b)).map ctxDec ∧
+    (opMul R a b).map absNum = (specBin R .mul (absNum a) (absNum b)).map ctxDec ∧
+    (opDiv R v a b).map absNum = (specBin R .div (absNum a) (absNum b)).map ctxDec :=
+  addsubmuldiv_exact_ctx R v hv a b x sx y sy ha hb
+
+/-- `mod` on integer/decimal operands with the context applied (quotient of at most 28 digits) -/
+theorem mod_exact_eq_spec_ctx (R : Rounding) (v : Ver) (a b : Num) (x : Int) (sx : Nat) (y : Int) (sy : Nat)
+    (ha : asDec a = some (x, sx)) (hb : asDec b = some (y, sy)) (hq : numDigits (decQuotMag x sx y sy) ≤ 28) :
+    (opMod R v a b).map absNum = (specBin R .mod (absNum a) (absNum b)).map ctxDec :=
+  mod_exact_ctx R v a b x sx y sy ha hb hq
+
+/-- unary minus, unary plus and fn:abs on an xs:decimal: exact, then the decimal context (all coefficients) -/
+theorem neg_pos_abs_decimal_ctx (R : Rounding) (n : Int) (s : Nat) :
+    absNum (opNeg (.dec n s)) = ctxDec (specUn R .neg (.decimal (decVal n s))) ∧
+    absNum (opPos (.dec n s)) = ctxDec (specUn R .pos (.decimal (decVal n s))) ∧
+    absNum (fnAbs (.dec n s)) = ctxDec (specUn R .abs (.decimal (decVal n s))) :=
+  neg_pos_abs_dec_ctx R n s
+
+/-- the decimal exponent used by `round28` is the right one: 10^e ≤ a < 10^(e+1) -/
+theorem ilog10_correct (a : Rat) (ha : 0 < a) :
+    (10 : Rat) ^ (ilog10 a) ≤ a ∧ a < (10 : Rat) ^ (ilog10 a + 1) := ilog10_spec a ha
+
+/-- test (literals): 1 div 3 and a 40-digit product are rounded to 28 digits, ties to even -/
+example : decDiv 1 0 3 0 = (3333333333333333333333333333, 28) ∧
+    ctx28 12345678901234567890123456785 0 = (12345678901234567890123456780, 0) ∧
+    ctx28 12345678901234567890123456775 1 = (1234567890123456789012345678, 0) := by
+  refine ⟨by decide +kernel, by decide +kernel, by decide +kernel⟩
+
+/-- PARTIAL (F06s, F06x): the XPath 1.0 parser on double and string operands: a string is converted with
+number(), then IEEE arithmetic — `+ - * div mod`, all doubles and all strings on which the implementation's
+conversion agrees with XPath 1.0 number() -/
+theorem xpath10_ops_eq_spec (R : Rounding) (op : BinOp) (hop : op ≠ .idiv) (a b : Opnd)
+    (ha : isDblOpnd a = true) (hb : isDblOpnd b = true)
+    (hsa : trigF06s R a = false) (hsb : trigF06s R b = false) (hw : (opndDbl R a).wf)
+    (hx : trigF06x R .v10 op (.dbl (opndDbl R a)) (.dbl (opndDbl R b)) = false) :
+    (model10Bin R op a b).map absNum = spec10Bin R op (absOpnd a) (absOpnd b) :=
+  v10_ops_eq_spec10 R op hop a b ha hb hsa hsb hw hx
+
+theorem xpath10_unops_eq_spec (R : Rounding) (op : UnOp)
+    (hop : op = .neg ∨ op = .floor ∨ op = .ceiling ∨ op = .round 0) (a : Opnd) (ha : isDblOpnd a = true)
+    (hsa : trigF06s R a = false) (hk : trigF06p op (.dbl (opndDbl R a)) = false) :
+    absNum (model10Un R op a) = spec10Un R op (absOpnd a) :=
+  v10_unops_eq_spec10 R op hop a ha hsa hk
+
+/-- F06v witnesses (kernel-checked): integer literals of the 1.0 parser are computed exactly -/
+theorem xpath10_exact_literals_fail :
+    trigF06v_bin ieee .add (.num (.int 10000000000000000000001)) (.num (.int 0)) = true ∧
+    model10Bin ieee .add (.num (.int 10000000000000000000001)) (.num (.int 0)) = .ok (.int 10000000000000000000001) ∧
+    spec10Bin ieee .add (.int 10000000000000000000001) (.int 0) = .ok (.double (.fin 10000000000000000000000)) ∧
+    trigF06v_bin ieee .mod (.num (.int 5)) (.num (.int 0)) = true ∧
+    model10Bin ieee .mod (.num (.int 5)) (.num (.int 0)) = .error .FOAR0001 ∧
+    spec10Bin ieee .mod (.int 5) (.int 0) = .ok (.double .nan) := v10_exact_literals_fail
+
+/-- F06s witness: `'1e3'` is 1000 for the implementation, NaN for XPath 1.0 number() -/
+theorem xpath10_string_exponent_fails :
+    trigF06s ieee (.str ['1', 'e', '3']) = true ∧ pyNumber ieee ['1', 'e', '3'] = .fin 1000 ∧
+    number10 ieee ['1', 'e', '3'] = .nan := v10_string_exponent_fails
 
 end EPV.C06
